@@ -530,3 +530,14 @@ PROPS["C19"] = {"run": lambda p, tier, seed, replay, t0: run_node_property(
         "AES-256-GCM is a parameter of the theorems (structure Aead with laws dec_enc and key_sep: hypotheses, instantiated by a toy cipher in the examples)",
         "absence of plaintext in real files is established by the byte search over the generated payloads / names (a test); the placement theorem is about the model",
         "message checksum under encryption is that of the ciphertext (the checksum the message was stored with); the harness compares checksum and payload only without encryption"])}
+
+import gen_auth
+PROPS["C10"] = {"run": lambda p, tier, seed, replay, t0: run_node_property(
+    p, tier, seed, replay, t0, module="Iggy.Props.C10", gen=gen_auth.gen, n_quick=120, n_thorough=2000,
+    spec_prefixes=["secret-in-clear", "obs-changed"],
+    corr_kinds={"login", "login-pat", "logout", "create-user", "delete-user", "update-user", "update-perms",
+                "change-pw", "user", "users", "create-pat", "delete-pat", "pats", "clean-pats", "me", "restart"},
+    assumptions=ASSUME_NODE + [
+        "passwords are modelled by the string itself: `u.pw = pw` stands for verify(pw, bcrypt hash) under the scheme law verify p (hash q) iff p = q (assumption about bcrypt); a raw token is identified by its creation index (digest injective: assumption about blake3)",
+        "'never stored in clear' for the real code rests on the byte search of every file for every raw password and raw token used (a test); in the model journal entries can only carry hashes/digests by construction",
+        "the few-microsecond difference between a token's runtime creation time and its journal timestamp does not exist under the virtual clock"])}
